@@ -15,7 +15,7 @@ CHECKS = {
         ref="2 C01",
     ),
     "C02": dict(
-        technique="property-based testing: exhaustive small-expression enumeration + Hypothesis expression trees vs exact-integer ISO C model, differential against gcc -E",
+        technique="property-based testing and fuzzing: exhaustive small-expression enumeration + Hypothesis expression trees + atheris coverage-guided campaign (bytes -> AST) vs exact-integer ISO C model, differential against gcc -E",
         text="Generated-input search over #if expressions: all operator pairs/compositions, all <=2-operator expressions over boundary literals (sampled in quick, complete in thorough) and random trees, observed through value-revealing wrappers (E, (E)==V, (E)!=V, signedness probe); the model is confirmed by gcc on a sample and on every unlisted disagreement; unevaluated-#elif programs with garbage expressions. Bounded exploration.",
         note="Trusts gcc 12 for implementation-defined behaviour and the model in vlib/model_expr.py (gcc-validated each run); UB and gcc-diagnosed expressions are excluded.",
         ref="2 C02",
@@ -33,7 +33,7 @@ CHECKS = {
         ref="2 C04",
     ),
     "C05": dict(
-        technique="property-based testing: exhaustive short-text enumeration + Hypothesis token-level texts vs reference phase-2/3 scanner, gcc -E as domain filter and scanner validation",
+        technique="property-based testing and fuzzing: exhaustive short-text enumeration + Hypothesis token-level texts + atheris coverage-guided campaign on FileParser, all vs reference phase-2/3 scanner; gcc -E as domain filter and scanner validation",
         text="Generated-input search over C source texts: every text up to a length bound over the 10-character lexical alphabet and Hypothesis token-level texts (literals containing comment markers, multi-line and continued comments, continuations between any two characters, directive lines). The set of counted physical lines, the directive/code classification per logical line, duplicates and total_sloc from FileParser are compared with a reference scanner written from translation phases 2-3; gcc -E validates the scanner and filters the domain. Bounded exploration.",
         note="Trusts the 100-line scanner in vlib/model_lines_c.py (validated against gcc -E line structure on continuation-free texts each run); enumerated '#' lines are limited to null directives.",
         ref="2 C05",
